@@ -244,8 +244,49 @@ func c07Overlay(r *rand.Rand, o genOpts) Case {
 	layers := func(p map[string]any) string {
 		return gList(sortedKeys(p), func(k string) string { return "(" + gStr(k) + ", " + gNode(p[k]) + ")" })
 	}
-	return Case{Kind: "overlay", Desc: map[string]any{"l": lp, "r": rp, "layer": name, "mods": modsDesc(ms)},
-		Coq: "COverlay " + gStr(name) + " " + layers(lp) + " " + layers(rp) + " " + gList(ms, gMod), Fail: fail, Nontrivial: len(ms) >= 2}
+	coqCase := "COverlay " + gStr(name) + " " + layers(lp) + " " + layers(rp) + " " + gList(ms, gMod)
+	descCase := map[string]any{"l": deepCopy(lp), "r": deepCopy(rp), "layer": name, "mods": modsDesc(ms)}
+	// the documents live on: after an edit of either side (a fresh top-level key written by Populate, Put or a new Add
+	// into a layer that exists or not) a second OverlayDocs describes the layers as they are NOW
+	if len(fail) == 0 && r.Intn(2) == 0 {
+		ed := ns[r.Intn(len(ns))]
+		side, plain := lo, lp
+		if r.Intn(2) == 0 {
+			side, plain = ro, rp
+		}
+		cur, _ := plain[ed].(map[string]any)
+		cur = deepCopy(cur).(map[string]any)
+		if cur == nil {
+			cur = map[string]any{}
+		}
+		how := r.Intn(3)
+		if pn := guard(func() {
+			switch how {
+			case 0:
+				side.Populate(ed, "", &map[string]interface{}{"populated-later": "p"})
+				cur["populated-later"] = "p"
+			case 1:
+				side.Put(ed, "put-later", dom.LeafNode("q"))
+				cur["put-later"] = "q"
+			default: // Add writes the members of its argument into the layer
+				side.Add(ed, anyToContainer(map[string]any{"added-later": "r"}))
+				cur["added-later"] = "r"
+			}
+			plain[ed] = cur
+			res2 := diff.OverlayDocs(lo, ro)
+			for _, n := range ns {
+				le, _ := lp[n].(map[string]any)
+				re, _ := rp[n].(map[string]any)
+				want := *diff.Diff(anyToContainer(le), anyToContainer(re))
+				if res2[n] == nil || !reflect.DeepEqual(modsDesc(*res2[n]), modsDesc(want)) {
+					fail = append(fail, fmt.Sprintf("after an edit of layer %s (how=%d) a second OverlayDocs does not describe layer %s as it is now", ed, how, n))
+				}
+			}
+		}); pn != "" {
+			fail = append(fail, "panic in the second OverlayDocs: "+pn)
+		}
+	}
+	return Case{Kind: "overlay", Desc: descCase, Coq: coqCase, Fail: fail, Nontrivial: len(ms) >= 2}
 }
 
 // many keys whose left node is composite and right node a scalar: ties Delete/Add on one path
